@@ -170,14 +170,16 @@ fn registered_case(i: u64, out: &mut WorkerOut) {
     use expression_engine::{InfixOpAssociativity, InfixOpType};
     use std::sync::Arc;
     // cases 9..11: a long word (anything that bounds the length of a word operator)
-    let word = if i >= 9 { "startsWithAnyCaseInsensitive_v2" } else { "wop" };
+    // cases 12..14: a word that starts with a character that is neither a letter nor one of the
+    // operator-start characters
+    let word = if i >= 12 { "~>" } else if i >= 9 { "startsWithAnyCaseInsensitive_v2" } else { "wop" };
     let kind = ["prefix", "infix", "postfix"][(i % 3) as usize];
     let primed = (3..9).contains(&i);
     let xthread = (6..9).contains(&i);
     let alphabet = ["1", "x", word, "(", ")", ",", "+", ";"];
     let seqs = TokenSeqs { alphabet: alphabet.to_vec(), max_len: 5 };
     let mut ops = OpSet::builtin();
-    let stage = format!("registered[{}{}{}{}]", kind, if i >= 9 { ",31-character word" } else { "" }, if primed { ",word parsed before registration" } else { "" }, if xthread { ",registered by another thread" } else { "" });
+    let stage = format!("registered[{}{}{}{}]", kind, if i >= 12 { ",word ~>" } else if i >= 9 { ",31-character word" } else { "" }, if primed { ",word parsed before registration" } else { "" }, if xthread { ",registered by another thread" } else { "" });
     if primed {
         // the word is an ordinary name for now
         for j in 0..seqs.len() {
@@ -239,7 +241,7 @@ impl Prop for C05 {
         });
         stages.push(Stage {
             name: "registered".into(),
-            len: 12,
+            len: 15,
             chunk: 1,
             timeout: Duration::from_secs(300),
             what: "fresh process: {prefix, infix, postfix} word operator registered, with or without parsing text that contains the word beforehand (and, parsed beforehand, with the registration made by another thread); then every sequence of <= 5 tokens over {1, x, the word, (, ), ',', +, ;} judged under the extended table".into(),
